@@ -14,6 +14,7 @@ import KafkaVerif.Base.Proto
 import KafkaVerif.Base.Bytes
 import KafkaVerif.Model.GroupBalancer
 import KafkaVerif.Spec.GroupAssign
+import KafkaVerif.Model.GroupGlue
 
 namespace KV.OracleC14
 open KV KV.GroupBalancer KV.Spec.GroupAssign
@@ -103,6 +104,20 @@ def rackTopic (ms : List Member) (ps : List Part) (a : Asg) (ids : List Nat) (t 
   | some es => some es
   | none => rackAssignTopic sub tp zones zones
 
+/-- every member's decoded SyncGroup answer when the leader's balancer returned `m` (as the Go map `mapOf m ids ts`):
+`(id, received List.reverse (mapOf m ids ts) id)` for every id, with the leader's request computed once -/
+def glueTable (m : Asg) (ids ts : List Nat) : List (Nat × KV.GroupGlue.TopicMap) :=
+  let A := KV.GroupGlue.mapOf m ids ts
+  let S := KV.GroupGlue.syncRequest List.reverse A
+  ids.map fun id => (id, match S.find? (fun e => e.1 == id) with
+    | some e => KV.GroupGlue.decodeAssignment e.2
+    | none => [])
+
+def asgOfTable (tb : List (Nat × KV.GroupGlue.TopicMap)) : Asg :=
+  fun t id => match tb.find? (·.1 == id) with
+    | some e => (KV.GroupGlue.mapGet t e.2).getD []
+    | none => []
+
 def answer (model : String) (holds : Bool) : String :=
   s!"model={model} holds={if holds then 1 else 0}"
 
@@ -152,17 +167,29 @@ def step (line : String) : String :=
         let a := asgOf es
         let wf := decide (WellFormed ms)
         let ok := impl != "panic"
-        match op with
-        | "range" => answer (render (rangeAssign ms ps) idsH ts) (ok && (!wf || rangeHoldsOn ms ps a ts ids))
-        | "rr" => answer (render (rrAssign ms ps) idsH ts) (ok && (!wf || rrHoldsOn ms ps a ts ids))
+        -- ops g<balancer>: the same group run through the real leader glue; `impl` is what the members RECEIVED;
+        -- the model is the balancer model pushed through Model/GroupGlue (topics32 iterated in reverse order)
+        let viaGlue := op.startsWith "g"
+        let bop := if viaGlue then (op.drop 1).toString else op
+        -- `thru m` = `KV.GroupGlue.delivered List.reverse m ids ts` evaluated through a table (see `glueTable`)
+        -- (the table is bound as data at each use so that it is computed once, not once per lookup)
+        match bop with
+        | "range" =>
+          let tb := if viaGlue then glueTable (rangeAssign ms ps) ids ts else []
+          answer (render (if viaGlue then asgOfTable tb else rangeAssign ms ps) idsH ts) (ok && (!wf || rangeHoldsOn ms ps a ts ids))
+        | "rr" =>
+          let tb := if viaGlue then glueTable (rrAssign ms ps) ids ts else []
+          answer (render (if viaGlue then asgOfTable tb else rrAssign ms ps) idsH ts) (ok && (!wf || rrHoldsOn ms ps a ts ids))
         | "rack" =>
           let zs := sortDedup (ms.map (·.zone) ++ ps.map (·.zone))
           let per := ts.map fun t => (t, rackTopic ms ps a ids t)
+          let m : Asg := fun t id => match per.find? (·.1 == t) with
+                                     | some (_, some es) => collect id es
+                                     | _ => []
+          let tb := if viaGlue then glueTable m ids ts else []
           let model : String :=
             if per.any (·.2.isNone) then "panic"
-            else render (fun t id => match per.find? (·.1 == t) with
-                                     | some (_, some es) => collect id es
-                                     | _ => []) idsH ts
+            else render (if viaGlue then asgOfTable tb else m) idsH ts
           answer model (ok && (!wf || rackHoldsOn ms ps a ts ids zs))
         | _ => "bad-op"
       | _, _, _ => "bad-args"
